@@ -41,6 +41,9 @@ const MAX_LIST_SIZE: usize = 10_000_000;
 const MAX_TUPLE_SIZE: usize = 10_000_000;
 const MAX_MAP_SIZE: usize = 1_000_000;
 const MAX_BINARY_SIZE: usize = 100_000_000;
+// Counts and sizes come from the wire: buffers are pre-allocated for at most what the remaining
+// input can hold (every element takes at least one byte) and grow from there.
+const MAX_PREALLOCATION: usize = 64 * 1024;
 
 type NomResult<'a, T> = IResult<&'a [u8], T, NomError<&'a [u8]>>;
 
@@ -322,7 +325,7 @@ fn parse_compressed<'a>(input: &'a [u8], cache: &AtomCache) -> NomResult<'a, Own
     }
 
     let mut decoder = ZlibDecoder::new(rest);
-    let mut decompressed = Vec::with_capacity(uncompressed_size as usize);
+    let mut decompressed = Vec::with_capacity((uncompressed_size as usize).min(MAX_PREALLOCATION));
     decoder
         .read_to_end(&mut decompressed)
         .map_err(|_| nom::Err::Failure(NomError::new(input, ErrorKind::Fail)))?;
@@ -594,7 +597,7 @@ fn parse_small_tuple<'a>(input: &'a [u8], cache: &AtomCache) -> NomResult<'a, Ow
         return Err(nom::Err::Failure(NomError::new(input, ErrorKind::TooLarge)));
     }
     let mut remaining = input;
-    let mut elements = Vec::with_capacity(arity as usize);
+    let mut elements = Vec::with_capacity((arity as usize).min(remaining.len()));
 
     for _ in 0..arity {
         let (new_remaining, term) = parse_term(remaining, cache)?;
@@ -611,7 +614,7 @@ fn parse_large_tuple<'a>(input: &'a [u8], cache: &AtomCache) -> NomResult<'a, Ow
         return Err(nom::Err::Failure(NomError::new(input, ErrorKind::TooLarge)));
     }
     let mut remaining = input;
-    let mut elements = Vec::with_capacity(arity as usize);
+    let mut elements = Vec::with_capacity((arity as usize).min(remaining.len()));
 
     for _ in 0..arity {
         let (new_remaining, term) = parse_term(remaining, cache)?;
@@ -638,7 +641,7 @@ fn parse_list<'a>(input: &'a [u8], cache: &AtomCache) -> NomResult<'a, OwnedTerm
         return Err(nom::Err::Failure(NomError::new(input, ErrorKind::TooLarge)));
     }
     let mut remaining = input;
-    let mut elements = Vec::with_capacity(len as usize);
+    let mut elements = Vec::with_capacity((len as usize).min(remaining.len()));
 
     for _ in 0..len {
         let (new_remaining, term) = parse_term(remaining, cache)?;
@@ -846,7 +849,7 @@ fn parse_new_fun_ext<'a>(input: &'a [u8], cache: &AtomCache) -> NomResult<'a, Ow
     };
 
     let mut remaining = input;
-    let mut free_vars = Vec::with_capacity(num_free as usize);
+    let mut free_vars = Vec::with_capacity((num_free as usize).min(remaining.len()));
     for _ in 0..num_free {
         let (new_remaining, term) = parse_term(remaining, cache)?;
         free_vars.push(term);
@@ -1001,7 +1004,7 @@ fn parse_small_tuple_borrowed<'a>(
         return Err(nom::Err::Failure(NomError::new(input, ErrorKind::TooLarge)));
     }
     let mut remaining = input;
-    let mut elements = Vec::with_capacity(arity as usize);
+    let mut elements = Vec::with_capacity((arity as usize).min(remaining.len()));
 
     for i in 0..arity {
         ctx.push(PathSegment::TupleElement(i as usize));
@@ -1024,7 +1027,7 @@ fn parse_large_tuple_borrowed<'a>(
         return Err(nom::Err::Failure(NomError::new(input, ErrorKind::TooLarge)));
     }
     let mut remaining = input;
-    let mut elements = Vec::with_capacity(arity as usize);
+    let mut elements = Vec::with_capacity((arity as usize).min(remaining.len()));
 
     for i in 0..arity {
         ctx.push(PathSegment::TupleElement(i as usize));
@@ -1057,7 +1060,7 @@ fn parse_list_borrowed<'a>(
         return Err(nom::Err::Failure(NomError::new(input, ErrorKind::TooLarge)));
     }
     let mut remaining = input;
-    let mut elements = Vec::with_capacity(len as usize);
+    let mut elements = Vec::with_capacity((len as usize).min(remaining.len()));
 
     for i in 0..len {
         ctx.push(PathSegment::ListElement(i as usize));
@@ -1302,7 +1305,7 @@ fn parse_new_fun_ext_borrowed<'a>(
     };
 
     let mut remaining = input;
-    let mut free_vars = Vec::with_capacity(num_free as usize);
+    let mut free_vars = Vec::with_capacity((num_free as usize).min(remaining.len()));
     for i in 0..num_free {
         ctx.push(PathSegment::FunFreeVar(i as usize));
         let (new_remaining, term) = parse_term_borrowed(remaining, original_len, ctx)?;
